@@ -3,6 +3,7 @@ package props
 import (
 	"bytes"
 	"fmt"
+	"math/big"
 	"strings"
 	"testing"
 	"time"
@@ -109,7 +110,8 @@ func newC03World(rt *rapid.T) *c03World {
 		if r := e.Deliver(ophosttypes.NewMsgCreateBridge(w.users[0].Str, henv.DefaultBridgeConfig(w.users[0].Str, w.users[1].Str, w.period))); !r.OK() {
 			panic(r.Err)
 		}
-		e.Fund(ophosttypes.BridgeAddress(b), coinOf("uinit", 1_000_000_000), coinOf("uusdc", 1_000_000_000))
+		// rich escrows (well above 2^64): a claim is then decided by the proof, never by missing funds
+		e.Fund(ophosttypes.BridgeAddress(b), sdk.NewCoin("uinit", c03Rich), sdk.NewCoin("uusdc", c03Rich))
 	}
 	sizeGen := rapid.OneOf(rapid.IntRange(1, 8), rapid.IntRange(1, 40))
 	seq := map[uint64]uint64{1: 1, 2: 1}
@@ -169,6 +171,8 @@ func newC03World(rt *rapid.T) *c03World {
 	}
 	return w
 }
+
+var c03Rich, _ = math.NewIntFromString("1180591620717411303424") // 2^70
 
 var c03Kinds = []string{"none", "flip-storage", "flip-blockhash", "flip-proof", "version", "seq", "amount", "amount+2^64", "bridge", "index", "swap-from-to",
 	"other-storage", "other-blockhash", "drop-last", "drop-first", "dup-item", "swap-items", "extend", "empty-proof", "cut-to-inner", "other-pos-proof",
@@ -421,7 +425,7 @@ func TestC03Positions(t *testing.T) {
 		if r := e.Deliver(ophosttypes.NewMsgCreateBridge(w.users[0].Str, henv.DefaultBridgeConfig(w.users[0].Str, w.users[1].Str, w.period))); !r.OK() {
 			t.Fatal(r.Err)
 		}
-		e.Fund(ophosttypes.BridgeAddress(1), coinOf("uinit", 1_000_000_000))
+		e.Fund(ophosttypes.BridgeAddress(1), sdk.NewCoin("uinit", c03Rich))
 		var ts []wd
 		for i := 0; i < n; i++ {
 			ts = append(ts, wd{Bridge: 1, Seq: uint64(i + 1), From: "l2", To: w.users[2].Str, Denom: "uinit", Amount: uint64(i + 1)})
@@ -479,8 +483,8 @@ func TestC03BitFlips(t *testing.T) {
 			t.Fatal(r.Err)
 		}
 	}
-	e.Fund(ophosttypes.BridgeAddress(1), coinOf("uinit", 1_000_000_000))
-	e.Fund(ophosttypes.BridgeAddress(2), coinOf("uinit", 1_000_000_000))
+	e.Fund(ophosttypes.BridgeAddress(1), sdk.NewCoin("uinit", c03Rich))
+	e.Fund(ophosttypes.BridgeAddress(2), sdk.NewCoin("uinit", c03Rich))
 	var ts []wd
 	for i := 0; i < 8; i++ {
 		ts = append(ts, wd{Bridge: 1, Seq: uint64(i + 1), From: w.users[1].Str, To: w.users[2].Str, Denom: "uinit", Amount: uint64(100 + i)})
@@ -544,6 +548,12 @@ func TestC03BitFlips(t *testing.T) {
 		try(fmt.Sprintf("index/bit%d", bit), m)
 		m = cloneMsg(base)
 		m.Amount.Amount = math.NewIntFromUint64(base.Amount.Amount.Uint64() ^ (1 << bit))
+		try(fmt.Sprintf("amount/bit%d", bit), m)
+	}
+	// the amount field is wider than its 64-bit commitment: bits above 63 as well
+	for bit := uint(64); bit < 72; bit++ {
+		m := cloneMsg(base)
+		m.Amount.Amount = base.Amount.Amount.Add(math.NewIntFromBigInt(new(big.Int).Lsh(big.NewInt(1), bit)))
 		try(fmt.Sprintf("amount/bit%d", bit), m)
 	}
 	for _, f := range []string{"from", "to", "denom"} {
